@@ -126,9 +126,10 @@ def case_gmres(T, n, max_iters, variant=0, complex_=False, symbolic_upper=False,
         x0e = zero if x0 is None else x0
         steps = max_iters if zero_at is None else min(max_iters, zero_at + 1)
         want = x0e + min_residual(T, Hm, Q, sj, steps, n if zero_at is None else zero_at + 1, dt)
-        T.eq(f"col{j}:iterate==argmin-residual[m={min(max_iters, n)}]", xj, want, dtype=False)
+        kw = dict(atol_scale=(sj if not T.sym else 1.0)) if tiny else {}
+        T.eq(f"col{j}:iterate==argmin-residual[m={min(max_iters, n)}]", xj, want, dtype=False, **kw)
         if max_iters >= n or (zero_at is not None and max_iters > zero_at):
-            T.eq(f"col{j}:A x == b", A @ xj, bj, dtype=False)
+            T.eq(f"col{j}:A x == b", A @ xj, bj, dtype=False, **kw)
 
 
 def case_blocks(T, n1, n2, max_iters, scaled=False, tol=1e-7):
@@ -250,3 +251,4 @@ BOUNDS = dict(
     "rational upper triangles, max_iters 1..n+2; symbolic x0 (scaled fixed direction); two right-hand sides of unrelated scale; complex with a "
     "rational unitary basis; breakdown (h[j+1,j] = 0) at every index; gmres() and inv(A, GMRES())", thorough="adds n = 4 for everything",
     values="sub-diagonal entries, s, s2, x0 scale (and H for n = 2, tol in the symtol cases) symbolic")
+BOUNDS["added"] = 'the Givens-rotation variant (use_triangular=True) real and complex, and initial residuals of norm 1e-14 .. 1e-11'
